@@ -414,11 +414,11 @@ func c19multi(va, vb string, n int) []c19input {
 		k2 += "2"
 	}
 	return []c19input{
-		{path: p, query: []c19pair{{k1, va}, {k2, vb}}},                                  // two keys
-		{path: p, query: []c19pair{{k1, va}, {k1, vb}}},                                  // repeated key: first wins
-		{path: p, query: []c19pair{{k1, va}, {k2, vb}, {k1, vb}, {"z", "1"}}},            // interleaved repeat
-		{path: p, query: []c19pair{{k1, vb}}, body: []c19pair{{k1, va}}},                 // body precedes URL
-		{path: p, query: []c19pair{{k2, vb}}, body: []c19pair{{k1, va}, {"z", "true"}}},  // body and URL keys
+		{path: p, query: []c19pair{{k1, va}, {k2, vb}}},                                 // two keys
+		{path: p, query: []c19pair{{k1, va}, {k1, vb}}},                                 // repeated key: first wins
+		{path: p, query: []c19pair{{k1, va}, {k2, vb}, {k1, vb}, {"z", "1"}}},           // interleaved repeat
+		{path: p, query: []c19pair{{k1, vb}}, body: []c19pair{{k1, va}}},                // body precedes URL
+		{path: p, query: []c19pair{{k2, vb}}, body: []c19pair{{k1, va}, {"z", "true"}}}, // body and URL keys
 		{path: p, query: []c19pair{{k1, va}, {"z", "null"}, {"w", "'aGk='"}, {k2, vb}}}, // four keys
 	}
 }
